@@ -463,6 +463,18 @@ F_STREAM = ["automaton::StreamChunkIter::{next,get_match_chunk,get_non_match_chu
             "util::buffer::Buffer::{buffer,min_buffer_len,free_buffer,fill,roll}", "automaton::get_match"]
 
 
+def stream_unwindset(case, t, cap):
+    """Per-loop bounds for the stream code (a too-small bound fails the
+    unwinding assertion): within one next() the outer loop runs once per
+    refill that yields no chunk plus the iteration that returns; the scan loop
+    at most cap times; Buffer::fill until min bytes are buffered (every read
+    returns >= 1 byte); the reader's copy loop at most cap bytes."""
+    mn = case.maxlen
+    return {("15StreamChunkIter", None): cap + 2,
+            ("6Buffer", None): mn + 2,
+            ("9SymReader", None): cap + 1}
+
+
 def h_stream_step(prop, case, facts, kind="dfa", t=6, spare=1, fault=False, timeout=1500):
     cap = case.maxlen + spare
     name = "h_sstep_%s_%s_t%d_cap%d_f%d" % (case.name, kind, t, cap, int(fault))
@@ -473,9 +485,10 @@ def h_stream_step(prop, case, facts, kind="dfa", t=6, spare=1, fault=False, time
                           "size of every read() (the schedule)"] + (["index of the failing read() call"] if fault else []),
                 induction="one next() from every state satisfying Inv yields the next piece of the specification's chunk sequence and re-establishes Inv; the initial state satisfies Inv trivially, so the claim covers streams of any length over this automaton, buffer capacity cap and pattern list",
                 environment_stubs=["impl Read returning a symbolic count in 1..=min(remaining, buf.len()), 0 only at end of data"])
-    unwind = max(base_unwind(case, facts, t), cap + 2, t + 3)
-    return Harness(name, case, body, unwind, schema, meta, timeout=timeout, mem_gb=20, functions=F_STREAM + F_KIND[kind],
-                   unsat_ok=set())
+    unwind = max(base_unwind(case, facts, t), cap + 2, t + 2)
+    unsat = set() if fault else {"an error after some bytes were read in the same call"}
+    return Harness(name, case, body, unwind, schema, meta, timeout=timeout, mem_gb=24, functions=F_STREAM + F_KIND[kind],
+                   unsat_ok=unsat, unwindset=stream_unwindset(case, t, cap))
 
 
 def h_stream_run(prop, case, facts, kind="dfa", t=3, timeout=1500):
@@ -484,8 +497,8 @@ def h_stream_run(prop, case, facts, kind="dfa", t=3, timeout=1500):
     body = _body(case, kind, "t::stream_run::<%s, _, %d, %d>(&a)" % (case.mod, t, k))
     meta = dict(template="stream_run", kind=kind, T=t, K=k, cap=case.maxlen + 1,
                 symbolic=["stream bytes", "size of every read()"], note="complete run through the real constructor (initial state)")
-    unwind = max(base_unwind(case, facts, t), case.maxlen + 3, t + 3, k + 1)
-    return Harness(name, case, body, unwind, [], meta, timeout=timeout, mem_gb=20,
+    unwind = max(base_unwind(case, facts, t), case.maxlen + 3, t + 2, k + 1)
+    return Harness(name, case, body, unwind, [], meta, timeout=timeout, mem_gb=24, unwindset=stream_unwindset(case, t, case.maxlen + 1),
                    functions=["Automaton::try_stream_find_iter", "StreamChunkIter::new", "StreamFindIter::next", "Buffer::new"] + F_STREAM + F_KIND[kind])
 
 
@@ -497,7 +510,8 @@ def h_stream_replace(prop, case, facts, kind="dfa", t=3, wfault=False, timeout=1
                 symbolic=["stream bytes", "size of every read()"] + (["index of the failing write() call"] if wfault else []),
                 environment_stubs=["impl Read with symbolic read sizes", "impl Write appending to a fixed array" + (", failing at a symbolic call" if wfault else "")])
     unwind = max(base_unwind(case, facts, t), case.maxlen + 3, w + 2)
-    return Harness(name, case, body, unwind, [], meta, timeout=timeout, mem_gb=20, covers_required=True,
+    return Harness(name, case, body, unwind, [], meta, timeout=timeout, mem_gb=24, covers_required=True,
+                   unwindset=stream_unwindset(case, t, case.maxlen + 1),
                    functions=["Automaton::try_stream_replace_all_with", "StreamChunkIter::new"] + F_STREAM + F_KIND[kind])
 
 
@@ -514,8 +528,9 @@ def h_replace_bytes(prop, case, facts, kind="dfa", n=2, timeout=1800):
     unsat = set()
     if n < 2 * max(1, case.minlen) and case.minlen > 0:
         unsat.add("two replacements")
-    return Harness(name, case, body, max(base_unwind(case, facts, n), w + 1), schema, meta, timeout=timeout, mem_gb=24,
-                   functions=F_REPLACE + F_SEARCH + F_KIND[kind], unsat_ok=unsat)
+    return Harness(name, case, body, max(base_unwind(case, facts, n), 5), schema, meta, timeout=timeout, mem_gb=24,
+                   functions=F_REPLACE + F_SEARCH + F_KIND[kind], unsat_ok=unsat,
+                   unwindset={("13replace_bytes", None): w + 1})
 
 
 def h_replace_str(prop, case, facts, kind="dfa", n=3, timeout=1800):
@@ -524,19 +539,23 @@ def h_replace_str(prop, case, facts, kind="dfa", n=3, timeout=1800):
     body = _body(case, kind, "t::replace_str::<%s, _, %d, %d>(&a)" % (case.mod, n, w))
     schema = [("hay", ("bytes", n)), ("n", "usize")]
     meta = dict(template="replace_str", kind=kind, N=n, symbolic=["haystack bytes (assumed valid UTF-8)", "haystack length"])
-    return Harness(name, case, body, max(base_unwind(case, facts, n), w + 1, 6), schema, meta, timeout=timeout, mem_gb=24,
-                   functions=F_REPLACE + F_SEARCH + F_KIND[kind] + ["str::is_char_boundary"], covers_required=False)
+    # global bound from the haystack length; only the harness's own output-comparison loops run to W
+    return Harness(name, case, body, max(base_unwind(case, facts, n), 5), schema, meta, timeout=timeout, mem_gb=24,
+                   functions=F_REPLACE + F_SEARCH + F_KIND[kind] + ["str::is_char_boundary"], covers_required=False,
+                   stubs=[("alloc::vec::Vec::<T, A>::extend_from_slice", "crate::stubs::extend_from_slice_nogrow")],
+                   unwindset={("11replace_str", None): w + 1, ("19run_utf8_validation", None): n + 2})
 
 
 def h_purity(prop, case, facts, kind="dfa", n=4, timeout=1200):
     name = "h_pure_%s_%s_n%d" % (case.name, kind, n)
     body = _body(case, kind, "t::purity::<%s, _, %d>(&a)" % (case.mod, n))
-    schema = [("h1", ("bytes", n)), ("h2", ("bytes", n)), ("s1", "usize"), ("e1", "usize"), ("s2", "usize"), ("e2", "usize")]
-    meta = dict(template="purity", kind=kind, N=n, symbolic=["two haystacks", "two spans"],
+    schema = [("h1", ("bytes", n)), ("h2", ("bytes", n)), ("s1", "usize"), ("e1", "usize"), ("s2", "usize"), ("e2", "usize"),
+              ("a1", "bool"), ("a2", "bool")]
+    meta = dict(template="purity", kind=kind, N=n, symbolic=["two haystacks", "two spans", "two anchoring modes"],
                 note="sequential histories only; concurrent schedules are outside the claim (Kani has no thread model)")
     f = facts[case.name]
     unwind = max(base_unwind(case, facts, n), f["dfa_match_rows"] + 2)
-    unsat = set()
+    unsat = {"a rejected request"} if (case.sk == "both" or kind != "dfa") else set()
     return Harness(name, case, body, unwind, schema, meta, timeout=timeout, functions=F_SEARCH + F_OV + F_KIND[kind] + ["Clone for the automaton"],
                    unsat_ok=unsat)
 
@@ -553,7 +572,7 @@ def h_work(prop, case, facts, kind="dfa", n=6, an=EITHER, timeout=1200, stubs=()
         mx = max([st[1] for st in f["nnfa_states"] if not st[2] and st[0] > 1] + [st[3] for st in f["nnfa_states"]] + [1])
         unwind = max(unwind, mx + 2, max(st[5] for st in f["nnfa_states"]) + 3,
                      max([(st[2] + 3) // 4 for st in f["cnfa_states"] if st[1] == 0] + [1]) + 2)
-    unsat = set()
+    unsat = {"a failure link is followed"} if kind == "dfa" else set()
     if any(len(x) == 0 for x in case.pats) and case.mk == "std":
         unsat.add("every byte of the span is consumed")
     h = Harness(name, case, body, unwind, schema, meta, timeout=timeout, functions=F_SEARCH + F_KIND[kind] + ["verif::count hooks"],
@@ -681,6 +700,9 @@ def lm_core(mk):
         # 5-byte pattern makes that link observable under leftmost semantics)
         Case(p + "_deepchain", ["zabcx", "abq", "bcd"], mk=mk),
         Case(p + "_deepchain2", ["abcdx", "bcq", "cde", "zz"], mk=mk),
+        # a failure link that needs three fall-backs (self-overlapping prefix)
+        Case(p + "_selfoverlap", ["aaab", "b"], mk=mk),
+        Case(p + "_selfoverlap2", ["ababc", "c", "bab"], mk=mk),
         # 0xFF / 0x00 as pattern bytes (last/first byte class)
         Case(p + "_hi", [b"ab", b"\xff", b"\x00b"], mk=mk),
     ]
@@ -701,6 +723,8 @@ def std_core():
         Case(p + "_revchain", ["dcba", "cba", "ba", "a"], mk="std"),
         Case(p + "_deepchain", ["zabc", "abq", "bc"], mk="std"),
         Case(p + "_deepchain5", ["zabcx", "abq", "bcd"], mk="std"),
+        Case(p + "_selfoverlap", ["aaab", "b"], mk="std"),
+        Case(p + "_selfoverlap2", ["ababc", "c", "bab"], mk="std"),
         Case(p + "_hi", [b"ab", b"\xff", b"\x00b"], mk="std"),
     ]
 
@@ -1033,7 +1057,7 @@ def schedule(prop, tier, seed):
                 if c in tcases:
                     m = f["teddy_bytes"]
                     length = 16 + m - 1
-                    w = min(c.maxlen + 2, 4)
+                    w = int(__import__("os").environ.get("VERIF_TEDDY_W", min(c.maxlen + 2, 4)))
                     wins = [(length + 1, length + 1 - w)] if quick else [(length, 0), (length, length - w), (length + 2, 14), (length + 2, length + 2 - w)]
                     if quick and c is not tcases[0]:
                         continue
@@ -1094,12 +1118,14 @@ def schedule(prop, tier, seed):
         return cases, mk
     if prop == "C17":
         cases = [Case("c17std_basic", ["abc", "bc", "c", "ab"], mk="std"), Case("c17lf_basic", ["abc", "bc", "c", "ab"], mk="lf"),
+                 Case("c17lf_un", ["abc", "b"], mk="lf", sk="un"), Case("c17std_an", ["abc", "b"], mk="std", sk="an"),
                  Case("c17lf_pf", ["abc", "b"], mk="lf", pf=True)]
 
         def mk(facts):
             hs = []
             for c in cases:
-                h = h_purity(prop, c, facts, "dfa", n=4 if quick else 5)
+                h = h_purity(prop, c, facts, "dfa", n=3 if quick else 4)
+                h.mem_gb = 24
                 if c.pf:
                     h.stubs = list(STUB_PF)
                 hs.append(h)
@@ -1127,8 +1153,15 @@ def schedule(prop, tier, seed):
                 hs.append(h)
                 hs.append(h_fail_depth(prop, c, facts))
                 if not c.pf and ("akb" in c.name or not quick):
-                    hs.append(h_work(prop, c, facts, "cnfa", n=3, an=EITHER, timeout=1800))
-                    hs.append(h_work(prop, c, facts, "nnfa", n=3 if not quick else 2, an=EITHER, timeout=1800))
+                    hs.append(h_work(prop, c, facts, "cnfa", n=2 if quick else 3, an=EITHER, timeout=1800 if quick else 3000))
+                    if c.mk == "std":
+                        hs.append(h_work(prop, c, facts, "nnfa", n=3 if not quick else 2, an=EITHER, timeout=1800))
+                    elif not quick:
+                        # leftmost automata fail into the DEAD sentinel, whose 256-entry sparse list is walked
+                        h = h_work(prop, c, facts, "nnfa", n=2, an=UN, timeout=3000)
+                        h.unwindset = {("follow_transition_sparse", 0): 258}
+                        h.mem_gb = 28
+                        hs.append(h)
             return hs
         return cases, mk
     if prop == "C11":
